@@ -2,30 +2,29 @@
   C01 — Symbolic tree integrity. Property theorems only (model: PgModel/Sym*.lean,
   lemmas: PgProofs/Sym*.lean).
 -/
-import PgProofs.SymStep
+import PgProofs.SymEval
 namespace Pg.Sym
 
 example : (Forest.empty).wf = true := by decide
 
 /-! ## Preservation of the parent/path invariant by a step -/
 
-/-- operations whose preservation theorem is proved below (every operation that offers no
-value); the value-offering operations are covered by `C01_step_Full` as a statement, by the
-driver-side `wf` check of every model state in the correspondence run, and by the lemmas
-`relocate_ok`, `setKey_ok`, `rearrange_local`. -/
-def Proved : Op → Bool
+/-- the operations that offer no value (used by `C01_removed_detached`). -/
+def ValueFree : Op → Bool
   | .lReverse _ | .lSort _ _ _ | .lClear _ | .dClear _ | .dPopItem _ | .delItem _ _ | .lPop _ _
-  | .lRemove _ _ | .dPop _ _ => true
+  | .lRemove _ _ | .dPop _ _ | .lDelSlice _ _ _ _ | .setSeal _ _ => true
   | _ => false
 
 def C01_step_Full : Prop :=
   ∀ (f : Forest) (n : Bool) (op : Op), f.wf = true → Admissible Cfg.patched f n op = true →
     (stepA Cfg.patched f n op).forest.wf = true
 
-/-- **C01, step theorem (proved part)**: on the patched tree every operation of `Proved` maps a
-forest in which every non-root node believes its actual parent and path to such a forest — for
-every forest, every target, every index / key / rank list, notification on or off. -/
-theorem C01_step_partial (f : Forest) (n : Bool) (op : Op) (hf : f.ok = true) (hp : Proved op = true) :
+/-- **C01, step theorem**: on the patched tree *every* operation of the surface — for every
+forest, target, key / index / slice / rank list, offered value (plain nested values, existing
+nodes that are moved or copied, Refs), notification on or off — maps a forest in which every
+non-root node believes its actual parent and path to such a forest. (No admissibility hypothesis
+is needed for this half of the invariant; uniqueness of node objects is the other half.) -/
+theorem C01_step (f : Forest) (n : Bool) (op : Op) (hf : f.ok = true) :
     (stepA Cfg.patched f n op).forest.ok = true := by
   unfold stepA
   split
@@ -33,17 +32,192 @@ theorem C01_step_partial (f : Forest) (n : Bool) (op : Op) (hf : f.ok = true) (h
   unfold stepN
   apply normalizeRoots_ok
   cases op with
-  | new v => simp [Proved] at hp
-  | clone t deep => simp [Proved] at hp
-  | setItem t k v => simp [Proved] at hp
-  | lAppend t v => simp [Proved] at hp
-  | lInsert t idx v => simp [Proved] at hp
-  | lExtend t vs => simp [Proved] at hp
-  | lIMul t k => simp [Proved] at hp
-  | lSetSlice t a b c vs => simp [Proved] at hp
-  | dSetDefault t k v => simp [Proved] at hp
-  | dUpdate t kvs => simp [Proved] at hp
-  | rebind t pairs skip => simp [Proved] at hp
+  | new v =>
+    cases v with
+    | node kind sl aw pt items =>
+      simp only [step]
+      have hv := evalVE_spec Cfg.patched none (.node kind sl aw pt items) f none false false [] hf
+      exact addRoot_ok _ _ (ok_of_subset hf hv.2) (okRoot_of_okAt hv.1)
+    | atom a => simp only [step]; exact hf
+    | fresh => simp only [step]; exact hf
+    | mkRef tg => simp only [step]; exact hf
+    | ref id => simp only [step]; exact hf
+  | clone t deep =>
+    cases hfind : f.find? t with
+    | none => simp only [step, hfind]; exact hf
+    | some tr =>
+      simp only [step, hfind]
+      rw [Forest.ok_iff] at hf ⊢
+      intro r hr
+      simp only [List.mem_append, List.mem_singleton] at hr
+      rcases hr with hr | rfl
+      · exact hf r hr
+      · exact okRoot_of_okAt (clone_okAt _ _ _ _ _ _)
+  | setItem t k v =>
+    cases hfind : f.find? t with
+    | none => simp only [step, hfind]; exact hf
+    | some tr =>
+      cases tr with
+      | leaf a => simp only [step, hfind]; exact hf
+      | node m its =>
+        have hits := Forest.find?_node_ok f hf t m its hfind
+        simp only [step, hfind]
+        exact setItem_ok f n m its k v hf hits
+  | lAppend t v =>
+    cases hfind : f.find? t with
+    | none => simp only [step, hfind]; exact hf
+    | some tr =>
+      cases tr with
+      | leaf a => simp only [step, hfind]; exact hf
+      | node m its =>
+        have hits := Forest.find?_node_ok f hf t m its hfind
+        simp only [step, hfind]
+        split
+        · exact hf
+        · exact finish_ok f n _ _ hf (rawSetList_ok f m its _ false v hf hits)
+  | lInsert t idx v =>
+    cases hfind : f.find? t with
+    | none => simp only [step, hfind]; exact hf
+    | some tr =>
+      cases tr with
+      | leaf a => simp only [step, hfind]; exact hf
+      | node m its =>
+        have hits := Forest.find?_node_ok f hf t m its hfind
+        simp only [step, hfind]
+        split
+        · exact hf
+        · exact finish_ok f n _ _ hf (rawSetList_ok f m its _ true v hf hits)
+  | lExtend t vs =>
+    cases hfind : f.find? t with
+    | none => simp only [step, hfind]; exact hf
+    | some tr =>
+      cases tr with
+      | leaf a => simp only [step, hfind]; exact hf
+      | node m its =>
+        have hits := Forest.find?_node_ok f hf t m its hfind
+        simp only [step, hfind]
+        split
+        · exact hf
+        · exact finish_ok f n _ _ hf (extendLoop_ok t vs f false hf)
+  | lIMul t k =>
+    cases hfind : f.find? t with
+    | none => simp only [step, hfind]; exact hf
+    | some tr =>
+      cases tr with
+      | leaf a => simp only [step, hfind]; exact hf
+      | node m its =>
+        have hits := Forest.find?_node_ok f hf t m its hfind
+        simp only [step, hfind]
+        split
+        · split
+          · exact hf
+          · exact dropAll_ok f t m its hf hits
+        · split
+          · exact hf
+          · exact finish_ok f n _ _ hf (extendLoop_ok t _ f false hf)
+  | lSetSlice t a b c vs =>
+    cases hfind : f.find? t with
+    | none => simp only [step, hfind]; exact hf
+    | some tr =>
+      cases tr with
+      | leaf a => simp only [step, hfind]; exact hf
+      | node m its =>
+        have hits := Forest.find?_node_ok f hf t m its hfind
+        simp only [step, hfind]
+        split
+        · exact hf
+        · split
+          · exact hf
+          · split
+            · exact hf
+            · next start stop stp hidx =>
+              have hp0 := slicePrepare_ok m vs f 0 hf
+              have run_ok : ∀ (st sp : Int) (repl : List (Bool × VE)),
+                  (match sliceLoop Cfg.patched t st sp (slicePrepare Cfg.patched m f 0 vs).1 0 repl false with
+                    | .error e => (⟨(slicePrepare Cfg.patched m f 0 vs).1, .err e⟩ : Res)
+                    | .ok (f', upd) => ⟨if (n && upd) = true then notify f' [m.id] else f', .ok⟩).forest.ok = true := by
+                intro st sp repl
+                split
+                · exact hp0
+                · next f' upd heq =>
+                  have := sliceLoop_ok t st sp repl _ 0 false hp0 (f', upd) heq
+                  simp only
+                  split
+                  · exact notify_ok _ _ this
+                  · exact this
+              split
+              · exact run_ok _ _ _
+              · split
+                · exact hp0
+                · split
+                  · exact run_ok _ _ _
+                  · exact run_ok _ _ _
+  | dSetDefault t k v =>
+    cases hfind : f.find? t with
+    | none => simp only [step, hfind]; exact hf
+    | some tr =>
+      cases tr with
+      | leaf a => simp only [step, hfind]; exact hf
+      | node m its =>
+        have hits := Forest.find?_node_ok f hf t m its hfind
+        simp only [step, hfind]
+        split
+        · exact hf
+        · exact setItem_ok f n m its k v hf hits
+  | dUpdate t kvs =>
+    cases hfind : f.find? t with
+    | none => simp only [step, hfind]; exact hf
+    | some tr =>
+      cases tr with
+      | leaf a => simp only [step, hfind]; exact hf
+      | node m its =>
+        have hits := Forest.find?_node_ok f hf t m its hfind
+        simp only [step, hfind]
+        exact doRebind_ok f n t m _ _ _ hf
+  | rebind t pairs skip =>
+    cases hfind : f.find? t with
+    | none => simp only [step, hfind]; exact hf
+    | some tr =>
+      cases tr with
+      | leaf a => simp only [step, hfind]; exact hf
+      | node m its =>
+        have hits := Forest.find?_node_ok f hf t m its hfind
+        simp only [step, hfind]
+        exact doRebind_ok f n t m _ _ _ hf
+  | lDelSlice t a b c =>
+    cases hfind : f.find? t with
+    | none => simp only [step, hfind]; exact hf
+    | some tr =>
+      cases tr with
+      | leaf a => simp only [step, hfind]; exact hf
+      | node m its =>
+        have hits := Forest.find?_node_ok f hf t m its hfind
+        simp only [step, hfind]
+        split
+        · exact hf
+        · split
+          · exact hf
+          · split
+            · exact hf
+            · split
+              · exact hf
+              · split
+                · exact notify_ok _ _ (rawDelMany_ok f m its _ hf hits)
+                · exact rawDelMany_ok f m its _ hf hits
+  | setSeal t flag =>
+    cases hfind : f.find? t with
+    | none => simp only [step, hfind]; exact hf
+    | some tr =>
+      cases tr with
+      | leaf a => simp only [step, hfind]; exact hf
+      | node m its =>
+        have hits := Forest.find?_node_ok f hf t m its hfind
+        simp only [step, hfind]
+        rw [Forest.ok_iff] at hf ⊢
+        intro r hr
+        simp only [List.mem_map] at hr
+        obtain ⟨r0, hr0, rfl⟩ := hr
+        exact mapSubtree_seal_okRoot t flag r0 (hf r0 hr0)
   | delItem t k =>
     cases hfind : f.find? t with
     | none => simp only [step, hfind]; exact hf
@@ -167,6 +341,175 @@ theorem C01_step_partial (f : Forest) (n : Bool) (op : Op) (hf : f.ok = true) (h
         · exact hf
         · exact dropAll_ok f t m its hf hits
 
+/-- **Removed / replaced nodes are detached**: if no tree held by the program claims a parent, the
+same holds after every operation of `ValueFree` — in particular the values that `del`, `pop`,
+`remove`, `clear`, `popitem` and slice deletion take out of a container become roots of the
+forest whose believed parent is none (and they are gone from the payload: `dropAll`,
+`rawDelList`, `rawDelMany`, `eraseKey`). -/
+theorem C01_removed_detached (f : Forest) (n : Bool) (op : Op) (hf : f.rootsFree = true) (hp : ValueFree op = true) :
+    (stepA Cfg.patched f n op).forest.rootsFree = true := by
+  unfold stepA
+  split
+  · exact hf
+  unfold stepN
+  apply normalizeRoots_free
+  cases op with
+  | new v => simp [ValueFree] at hp
+  | clone t deep => simp [ValueFree] at hp
+  | setItem t k v => simp [ValueFree] at hp
+  | lAppend t v => simp [ValueFree] at hp
+  | lInsert t idx v => simp [ValueFree] at hp
+  | lExtend t vs => simp [ValueFree] at hp
+  | lIMul t k => simp [ValueFree] at hp
+  | lSetSlice t a b c vs => simp [ValueFree] at hp
+  | dSetDefault t k v => simp [ValueFree] at hp
+  | dUpdate t kvs => simp [ValueFree] at hp
+  | rebind t pairs skip => simp [ValueFree] at hp
+  | lDelSlice t a b c =>
+    cases hfind : f.find? t with
+    | none => simp only [step, hfind]; exact hf
+    | some tr =>
+      cases tr with
+      | leaf a => simp only [step, hfind]; exact hf
+      | node m its =>
+        simp only [step, hfind]
+        split
+        · exact hf
+        · split
+          · exact hf
+          · split
+            · exact hf
+            · split
+              · exact hf
+              · split
+                · exact notify_free _ _ (rawDelMany_free f m its _ hf)
+                · exact rawDelMany_free f m its _ hf
+  | setSeal t flag =>
+    cases hfind : f.find? t with
+    | none => simp only [step, hfind]; exact hf
+    | some tr =>
+      cases tr with
+      | leaf a => simp only [step, hfind]; exact hf
+      | node m its =>
+        simp only [step, hfind]
+        rw [Forest.rootsFree_iff] at hf ⊢
+        intro r hr
+        simp only [List.mem_map] at hr
+        obtain ⟨r0, hr0, rfl⟩ := hr
+        rw [mapSubtree_seal_parentless]; exact hf r0 hr0
+  | delItem t k =>
+    cases hfind : f.find? t with
+    | none => simp only [step, hfind]; exact hf
+    | some tr =>
+      cases tr with
+      | leaf a => simp only [step, hfind]; exact hf
+      | node m its =>
+        simp only [step, hfind]
+        cases hk : m.kind with
+        | dict => exact delItemDict_free f n m its k false hf hk
+        | list =>
+          cases k with
+          | s _ => exact hf
+          | i idx => exact delItemList_free f n m its idx false hf
+        | obj c => exact hf
+  | lPop t idx =>
+    cases hfind : f.find? t with
+    | none => simp only [step, hfind]; exact hf
+    | some tr =>
+      cases tr with
+      | leaf a => simp only [step, hfind]; exact hf
+      | node m its =>
+        simp only [step, hfind]
+        split
+        · exact hf
+        · exact delItemList_free f n m its _ true hf
+  | lRemove t a =>
+    cases hfind : f.find? t with
+    | none => simp only [step, hfind]; exact hf
+    | some tr =>
+      cases tr with
+      | leaf a => simp only [step, hfind]; exact hf
+      | node m its =>
+        simp only [step, hfind]
+        split
+        · exact delItemList_free f n m its _ false hf
+        · exact hf
+  | lClear t =>
+    cases hfind : f.find? t with
+    | none => simp only [step, hfind]; exact hf
+    | some tr =>
+      cases tr with
+      | leaf a => simp only [step, hfind]; exact hf
+      | node m its =>
+        simp only [step, hfind]
+        split
+        · exact hf
+        · exact dropAll_free f t m its hf
+  | lSort t ranks rev =>
+    cases hfind : f.find? t with
+    | none => simp only [step, hfind]; exact hf
+    | some tr =>
+      cases tr with
+      | leaf a => simp only [step, hfind]; exact hf
+      | node m its =>
+        simp only [step, hfind]
+        split
+        · exact hf
+        · exact permute_free f t _ hf
+  | lReverse t =>
+    cases hfind : f.find? t with
+    | none => simp only [step, hfind]; exact hf
+    | some tr =>
+      cases tr with
+      | leaf a => simp only [step, hfind]; exact hf
+      | node m its =>
+        simp only [step, hfind]
+        split
+        · exact hf
+        · exact permute_free f t _ hf
+  | dPop t k =>
+    cases hfind : f.find? t with
+    | none => simp only [step, hfind]; exact hf
+    | some tr =>
+      cases tr with
+      | leaf a => simp only [step, hfind]; exact hf
+      | node m its =>
+        simp only [step, hfind]
+        split
+        · next hk =>
+          split
+          · exact delItemDict_free f n m its k true hf hk
+          · exact hf
+        · exact hf
+  | dPopItem t =>
+    cases hfind : f.find? t with
+    | none => simp only [step, hfind]; exact hf
+    | some tr =>
+      cases tr with
+      | leaf a => simp only [step, hfind]; exact hf
+      | node m its =>
+        simp only [step, hfind]
+        split
+        · exact hf
+        · split
+          · exact hf
+          · next k c hlast =>
+            apply addRoot_free _ _ (mapAt_free f t _ hf)
+            simp only [Cfg.patched, if_true]
+            exact detachFrom_parentless _ _
+  | dClear t =>
+    cases hfind : f.find? t with
+    | none => simp only [step, hfind]; exact hf
+    | some tr =>
+      cases tr with
+      | leaf a => simp only [step, hfind]; exact hf
+      | node m its =>
+        simp only [step, hfind]
+        split
+        · exact hf
+        · exact dropAll_free f t m its hf
+
+
 /-! ## Histories -/
 
 /-- a history: calls with the state of `notify_on_change` they run under. -/
@@ -175,19 +518,23 @@ def runHist (cfg : Cfg) (f : Forest) : List (Bool × Op) → Forest
   | (n, op) :: rest => runHist cfg (stepA cfg f n op).forest rest
 
 theorem C01_history_final (hist : List (Bool × Op)) : ∀ (f : Forest), f.ok = true →
-    (∀ s ∈ hist, Proved s.2 = true) → (runHist Cfg.patched f hist).ok = true := by
+    (runHist Cfg.patched f hist).ok = true := by
   induction hist with
-  | nil => intro f hf _; exact hf
+  | nil => intro f hf; exact hf
   | cons s rest ih =>
-    intro f hf hall
+    intro f hf
     obtain ⟨n, op⟩ := s
-    exact ih _ (C01_step_partial f n op hf (hall (n, op) (by simp))) (fun x hx => hall x (by simp [hx]))
+    exact ih _ (C01_step f n op hf)
 
-/-- **C01 over histories**: the invariant holds after every step of every history of proved
-operations ("checked after every step" = in every prefix), from every well-formed start. -/
-theorem C01_history_partial (f : Forest) (hist : List (Bool × Op)) (hf : f.ok = true)
-    (hall : ∀ s ∈ hist, Proved s.2 = true) (k : Nat) : (runHist Cfg.patched f (hist.take k)).ok = true :=
-  C01_history_final (hist.take k) f hf (fun s hs => hall s (List.mem_of_mem_take hs))
+/-- **C01 over histories**: the invariant holds after every step of every history ("checked after
+every step" = in every prefix), from every well-formed start — in particular from the empty
+forest, i.e. for everything a program can build. -/
+theorem C01_history (f : Forest) (hist : List (Bool × Op)) (hf : f.ok = true) (k : Nat) :
+    (runHist Cfg.patched f (hist.take k)).ok = true :=
+  C01_history_final (hist.take k) f hf
+
+theorem C01_reachable (hist : List (Bool × Op)) : (runHist Cfg.patched Forest.empty hist).ok = true :=
+  C01_history_final hist Forest.empty (by decide)
 
 /-- the empty forest is well-formed (base case). -/
 theorem C01_empty : Forest.empty.wf = true := by decide
@@ -290,14 +637,22 @@ def fNest : Forest := (stepA Cfg.patched Forest.empty true (.new (veDict [(.s 0,
 theorem C01_counterexample_F30 :
     (stepA Cfg.patched fNest true (.setItem 1 (.s 1) (.ref 0))).out = .diverges := by decide
 
-/-- F79 (known): `l.insert(0, l[0])` puts one node object in two places. -/
+/-- the tree with every fix but the one for F79. -/
+def cfgBeforeF79 : Cfg := { Cfg.patched with insertCopiesOwn := false }
+
+/-- F79: without the fix `l.insert(0, l[0])` puts one node object in two places … -/
 theorem C01_counterexample_F79 :
-    Admissible Cfg.patched fList true (.lInsert 0 0 (.ref 1)) = false ∧
-      (stepA Cfg.patched fList true (.lInsert 0 0 (.ref 1))).forest.aliased = true := by decide
+    Admissible cfgBeforeF79 fList true (.lInsert 0 0 (.ref 1)) = false ∧
+      (stepA cfgBeforeF79 fList true (.lInsert 0 0 (.ref 1))).forest.aliased = true := by decide
+
+/-- … with it the element is copied and the forest stays well-formed (ids distinct included). -/
+theorem C01_fixed_F79 :
+    Admissible Cfg.patched fList true (.lInsert 0 0 (.ref 1)) = true ∧
+      (stepA Cfg.patched fList true (.lInsert 0 0 (.ref 1))).forest.wf = true := by decide
 
 /-! Non-vacuity: well-formed non-trivial forests exist and the hypotheses are satisfiable. -/
 example : fList.wf = true ∧ fList.ids.length = 2 := by decide
-example : Proved (.lReverse 0) = true ∧ Admissible Cfg.patched fList true (.lReverse 0) = true := by decide
+example : ValueFree (.lReverse 0) = true ∧ Admissible Cfg.patched fList true (.lReverse 0) = true := by decide
 example : (runHist Cfg.patched fList [(true, .lReverse 0), (false, .lPop 0 (-1)), (true, .lClear 0)]).wf = true := by
   decide
 
